@@ -164,6 +164,13 @@ def generate_and_match(env, key, case):
         for k, t in enumerate(f.list_of_points):
             if t[0].get_name() is None and k % 2 == 0:
                 t[0].set_name("pt%d" % k)
+    r = rematch(env, key, f, p)
+    r.update(trace=trace, pep=pep)
+    return r
+
+
+def rematch(env, key, f, p):
+    """(re)generate the class constraints of f as a solve does and match them against the documented conditions"""
     npts_before = len(f.list_of_points)
     f.set_class_constraints()
     ref = reference(key, f, p)
@@ -192,7 +199,7 @@ def generate_and_match(env, key, case):
             used[hit] = True
             matches[ri] = gens[hit]
     extra = [gens[gi] for gi in range(len(gens)) if not used[gi] and not trivial(env, gforms[gi])]
-    return dict(f=f, p=p, ref=ref, matches=matches, missing=missing, extra=extra, trace=trace, pep=pep,
+    return dict(f=f, p=p, ref=ref, matches=matches, missing=missing, extra=extra,
                 trivial_refs=trivial_refs,
                 npts_before=npts_before)
 
